@@ -1,7 +1,7 @@
 (* Binary64 layer of C10, primitive floats (Grid/MaskFloat.v).  The agreement statements are
    finite and are decided by vm_compute; their only assumptions are Coq's primitive float and
    63-bit integer operations (kernel primitives), which `Print Assumptions` lists by name. *)
-From Coq Require Import ZArith List Bool Lia Floats Uint63.
+From Coq Require Import ZArith List Bool Lia PrimFloat Uint63.
 From Abm Require Import Base.Sx Grid.Mask Grid.MaskFloat Proofs.Mask_proofs.
 Import ListNotations.
 Open Scope Z_scope.
